@@ -270,6 +270,12 @@ func (mi *MessageInfo) unmarshalPointerLazy(b []byte, p pointer, groupTag protow
 				case lazyFields == nil || lazyFields[f] == lazyValidateOnly:
 					// Attempt to validate this field and leave it for later lazy unmarshaling.
 					o, valid := mi.skipField(b, f, wtyp, opts)
+					if valid == ValidationValid && !o.initialized && opts.flags&piface.UnmarshalCheckRequired != 0 {
+						// The field lacks required fields and the caller wants
+						// that reported. The initialization check trusts fields
+						// that are still lazy, so this one must be unmarshaled.
+						valid = ValidationUnknown
+					}
 					switch valid {
 					case ValidationValid:
 						// Skip over the valid field and continue.
